@@ -86,8 +86,13 @@ def marginal_spec(kinds=MARGINALS):
         'a': st.floats(0.5, 10.0),
         'b': st.floats(0.5, 10.0),
         'loc': st.floats(-1000.0, 1000.0),
-        'scale_exp': st.floats(-2.0, 3.0),
+        'scale_exp': st.one_of(st.floats(-2.0, 3.0), st.floats(-2.0, 3.0), st.floats(-9.0, -2.0)),
     })
+
+
+def eff_loc(spec):
+    """Location of a generated marginal: for scales below 1e-2 the location shrinks with the scale (|loc|/scale <= 1e5)."""
+    return spec['loc'] if spec['scale_exp'] >= -2 else spec['loc'] * 10.0 ** (spec['scale_exp'] + 2)
 
 
 def marginal_ppf(spec, u):
@@ -96,7 +101,7 @@ def marginal_ppf(spec, u):
 
     k = spec['kind']
     a, b = spec['a'], spec['b']
-    loc, scale = spec['loc'], 10.0 ** spec['scale_exp']
+    loc, scale = eff_loc(spec), 10.0 ** spec['scale_exp']
     if k == 'normal':
         x = stats.norm.ppf(u)
     elif k == 'uniform':
@@ -126,7 +131,7 @@ def marginal_cdf(spec, x):
 
     k = spec['kind']
     a, b = spec['a'], spec['b']
-    z = (np.asarray(x, dtype=float) - spec['loc']) / 10.0 ** spec['scale_exp']
+    z = (np.asarray(x, dtype=float) - eff_loc(spec)) / 10.0 ** spec['scale_exp']
     if k == 'normal':
         return stats.norm.cdf(z)
     if k == 'uniform':
